@@ -1043,7 +1043,9 @@ def _simple_run(case):
         "levels": [sorted({float(x) for x in a}) for a in net.allowable_rates],
         "net_class": type(net).__name__, "net_class_ok": type(net) is want_cls,
     }
-    S, expected = _simple_schedule(case, obs["tol"], obs["limits"][0] if len(obs["limits"]) == 1 else None)
+    if len(obs["limits"]) != 1 or M is None:
+        return obs      # not the documented one-constraint network: the oracle says so (no schedule is judged)
+    S, expected = _simple_schedule(case, obs["tol"], obs["limits"][0])
     if S is None:
         obs["skip"] = "no exact edge"
         return obs
